@@ -61,3 +61,50 @@ pub fn check(ctx: &mut Ctx, which: &[&str], n: usize) {
         }
     }
 }
+
+/// `TinySet` (common/src/bitset.rs): the translated methods vs the real ones, and the set
+/// semantics as an oracle on the implementation (element `i` <-> bit `i`).
+pub fn check_tinyset(ctx: &mut Ctx, n: usize) {
+    use tantivy_common::TinySet;
+    let words = interesting_u64(ctx, n);
+    let ask = |ctx: &mut Ctx, f: &str, args: String, real: String| {
+        let model = ctx.model.ask(&format!("PF {f} {args}"));
+        ctx.report.count(&format!("purefn:{f}"));
+        if model != real {
+            ctx.report.violation("model", &format!("PF:{f}-translation-differs"),
+                format!("{f}({args}): real {real} vs translated model {model}"),
+                json!({"kind": "purefn", "fn": f, "arg": args}));
+        }
+    };
+    let word = |t: TinySet| -> u64 { u64::from_le_bytes(t.into_bytes()) };
+    let set = |w: u64| -> TinySet { TinySet::deserialize(w.to_le_bytes()) };
+    ask(ctx, "tinyset_full", String::new(), word(TinySet::full()).to_string());
+    for el in 0u32..64 {
+        ask(ctx, "tinyset_singleton", el.to_string(), word(TinySet::singleton(el)).to_string());
+        ask(ctx, "tinyset_range_lower", el.to_string(), word(TinySet::range_lower(el)).to_string());
+        ask(ctx, "tinyset_range_greater_or_equal", el.to_string(), word(TinySet::range_greater_or_equal(el)).to_string());
+        // oracle: the sets they denote
+        let lower: u64 = (0..64u32).filter(|i| *i < el).fold(0u64, |a, i| a | (1u64 << i));
+        if word(TinySet::range_lower(el)) != lower || word(TinySet::range_greater_or_equal(el)) != !lower || word(TinySet::singleton(el)) != 1u64 << el {
+            ctx.report.violation("oracle", "PF:tinyset-range-or-singleton-wrong", format!("TinySet range_lower / range_greater_or_equal / singleton wrong at {el}"), json!({"kind":"tinyset","el":el}));
+        }
+    }
+    for &w in &words {
+        let el = ctx.rng.below(64) as u32;
+        let s = set(w);
+        ask(ctx, "tinyset_insert", format!("{w} {el}"), word(s.insert(el)).to_string());
+        ask(ctx, "tinyset_remove", format!("{w} {el}"), word(s.remove(el)).to_string());
+        ask(ctx, "tinyset_contains", format!("{w} {el}"), (s.contains(el) as u8).to_string());
+        let mut t = s;
+        let popped = t.pop_lowest();
+        let real = format!("{},{}", popped.map(|l| l.to_string()).unwrap_or("none".into()), word(t));
+        ask(ctx, "tinyset_pop_lowest", w.to_string(), real);
+        // oracle on the implementation
+        let expect_pop = if w == 0 { None } else { Some(w.trailing_zeros()) };
+        let expect_rest = if w == 0 { 0 } else { w & !(1u64 << w.trailing_zeros()) };
+        if popped != expect_pop || word(t) != expect_rest || s.contains(el) != ((w >> el) & 1 == 1)
+            || word(s.insert(el)) != (w | (1u64 << el)) || word(s.remove(el)) != (w & !(1u64 << el)) {
+            ctx.report.violation("oracle", "PF:tinyset-set-semantics-wrong", format!("TinySet({w:#x}) with element {el}: insert / remove / contains / pop_lowest do not implement the set of bit positions"), json!({"kind":"tinyset","w":w,"el":el}));
+        }
+    }
+}
